@@ -6,7 +6,7 @@
 (* SnapshotPipe.tla / RestorePipe.tla are evaluated on every event:        *)
 (*   P:InFlightBound        at most N backend transfers outstanding        *)
 (*   P:GetAfterPut, P:ChunkDoneOnce, P:CommitAfterAllChunks  (snapshot)    *)
-(*   P:FinalisedOnce, P:FinaliseAfterWrites, P:WritesExclusivePerFile      *)
+(*   P:FinalisedOnce, P:FinaliseAfterWrites, C:WritesExclusivePerFile      *)
 (*                                                           (restore)     *)
 (*   P:NoSpuriousError, P:Terminates, P:SameAsSequential, P:SlotsRestored  *)
 (***************************************************************************)
@@ -37,7 +37,8 @@ Clause(s, e) ==
     [] e.a = "chunk_done" -> IF e.k \in s.done THEN "P:ChunkDoneOnce" ELSE IF e.k \notin s.got THEN "P:GetAfterPut" ELSE "ok"
     [] e.a = "commit" -> IF s.done # 1..e.chunks \/ s.inflight # 0 THEN "P:CommitAfterAllChunks" ELSE "ok"
     \* FileLocks.tla WritersExclusive: nobody else is inside the write section of that file (hooks write.begin ... write under the file's lock)
-    [] e.a = "write.begin" -> IF e.f \in s.writing THEN "P:WritesExclusivePerFile" ELSE "ok"
+    \* conformance only (C:... = DRIFT): an implementation that writes disjoint parts of a file without a lock would still satisfy C09
+    [] e.a = "write.begin" -> IF e.f \in s.writing THEN "C:WritesExclusivePerFile" ELSE "ok"
     [] e.a = "utime" -> IF e.f \in s.fin THEN "P:FinalisedOnce"
                         ELSE IF e.f \in s.writing THEN "P:FinaliseAfterWrites"
                         ELSE IF s.writes[e.f] # Tr.expected[e.f] THEN "P:FinaliseAfterWrites" ELSE "ok"
